@@ -41,6 +41,19 @@ def flag_of(step):
     f = [k for k in ('deg', 'sin') if v.get(k)]
     return '+'.join(f) if f else 'none'
 
+def values_same(a, b):
+    """save / load and the declarative path copy numbers: they must come back RELATIVELY exact
+    (|b − a| ≤ 1e-15·|a|), however small — an absolute tolerance hides 2.2 pF → 2 pF"""
+    if isinstance(a, str) or isinstance(b, str) or isinstance(a, bool) or isinstance(b, bool):
+        return a == b and type(a) is type(b)
+    try:
+        a = complex(a); b = complex(b)
+    except TypeError:
+        return False
+    if a != a or b != b or abs(a) == math.inf or abs(b) == math.inf:
+        return repr(a) == repr(b)
+    return abs(a - b) <= 1e-15 * max(abs(a), abs(b))
+
 def same_circuit(c0, c1, ignore_ground_id=False):
     """None when c1 is c0 up to a bijective renaming of nodes; else (symptom, id, detail)"""
     if len(c0.components) != len(c1.components):
@@ -57,7 +70,7 @@ def same_circuit(c0, c1, ignore_ground_id=False):
         if list(a.value.keys()) != list(b.value.keys()):
             return 'value_keys', a.id, f'{list(b.value)}'
         for k in a.value:
-            if not gd.values_close(a.value[k], b.value[k]):
+            if not values_same(a.value[k], b.value[k]):
                 return 'value', a.id, f'{k}: {a.value[k]!r} became {b.value[k]!r}'
     if fwd.get(c0.ground_node, c1.ground_node) != c1.ground_node and c0.components:
         return 'reference', None, f'reference node {c0.ground_node!r} became {c1.ground_node!r}'
@@ -187,6 +200,18 @@ ENG_FIELDS = [('R', 'R', False), ('G', 'G', False), ('C', 'C', False), ('L', 'L'
               ('Vac', 'V', True), ('Vac', 'w', False), ('Vac', 'phi', True), ('Iac', 'I', True), ('Iac', 'w', False), ('Iac', 'phi', True),
               ('Vrect', 'V', True), ('Vrect', 'w', False), ('Vrect', 'phi', True), ('Irect', 'I', True), ('Z', 'Z', True),
               ('Vc', 'V', True), ('Ic', 'I', True)]
+
+def small_value_programs():
+    """non-round small values (picofarads, femto-units, tiny phases) in C, L, G, I, V, Z and phases"""
+    mk = lambda i, kind, vals, rev=False: dict(kind=kind, name=f'{kind}s{i}', vals=vals, rev=rev, a=(i % 7, 0), b=(i % 7, 1), place='endpoints')
+    a = [mk(0, 'C', {'C': 2.2e-12}), mk(1, 'C', {'C': 4.7e-13}, True), mk(2, 'L', {'L': 3.3e-15}), mk(3, 'L', {'L': 6.8e-9 * 1.0000001}),
+         mk(4, 'G', {'G': 4.7e-13}), mk(5, 'I', {'I': 3.3e-15}, True), mk(6, 'I', {'I': -6.8e-9 * 0.3})]
+    b = [mk(0, 'Iac', {'I': 4.7e-13, 'w': 2.2e-12, 'phi': 3.3e-15}), mk(1, 'Vac', {'V': 6.8e-9 * 7, 'w': 50.0, 'phi': -2.2e-12}, True),
+         mk(2, 'Vrect', {'V': 3.3e-15, 'w': 4.7e-13, 'phi': 6.8e-13}), mk(3, 'Z', {'Z': complex(2.2e-12, -4.7e-13)}),
+         mk(4, 'Vc', {'V': complex(3.3e-15, 6.8e-9 / 3)}), mk(5, 'Ic', {'I': complex(-4.7e-13, 2.2e-12)}, True), mk(6, 'G', {'G': 2.2e-12 / 3})]
+    c = [mk(0, 'Vac', {'V': 1.0, 'w': 1e3, 'phi': 4.7e-13, 'deg': True}), mk(1, 'Iac', {'I': 2.2e-12, 'w': 1.0, 'phi': 3.3e-9, 'sin': True}),
+         mk(2, 'Irect', {'I': 6.8e-15, 'w': 3.3e-3, 'phi': -4.7e-11, 'deg': True}), mk(3, 'V', {'V': -2.2e-12}), mk(4, 'R', {'R': 4.7e-13})]
+    return [p + [dict(kind='gnd', a=(0, 0))] for p in (a, b, c)]
 
 def engineering_programs(rng, values, per_drawing=6):
     """drawings whose numeric fields (values, phases, frequencies) carry the engineering values,
@@ -606,6 +631,9 @@ def run(ctx, out):
         rest = [v for v in ev if v not in must]
         erng.shuffle(rest)
         ev = must + rest[:60]
+    for prog in small_value_programs():
+        out.count('small_values', sum(1 for s_ in prog if s_['kind'] != 'gnd'))
+        roundtrip_case(ctx, out, prog, dict(gd.IDENT, unit=4.0), 'small_values', yaml_too=False)
     for prog in engineering_programs(erng, ev):
         if ctx.time_left() < 30: out.notes.append('engineering-value stream cut by budget'); break
         out.count('engineering_values', sum(1 for s_ in prog if s_['kind'] != 'gnd'))
